@@ -54,6 +54,18 @@ pub proof fn lemma_in_words_push(v: Seq<usize>, x: usize)
 }
 pub proof fn lemma_quote_lit() ensures "\""@ == seq!['"'], "\""@.len() == 1 { reveal_strlit("\""); assert("\""@ =~= seq!['"']); }
 pub open spec fn has_op(s: Seq<char>) -> bool { s.contains('|') || s.contains('&') || s.contains('<') || s.contains('>') }
+// C11: "with trailing newlines removed" -- exactly that, blanks stay
+pub open spec fn strip_nl(s: Seq<char>) -> Seq<char>
+    decreases s.len()
+{
+    if s.len() > 0 && s.last() == '\n' { strip_nl(s.drop_last()) } else { s }
+}
+#[verifier::external_body]
+pub fn vx_strip_nl(s: &String) -> (r: &str) ensures r@ == strip_nl(s@) { s.trim_end_matches('\n') }
+#[verifier::external_body]
+pub fn vx_eprint(s: &String) { }
+#[verifier::external_body]
+pub fn vx_eprint_nl() { }
 //@FN has_operator_char
 // ---- shared with the other expansion unit (common.ASSIGN_PREFIX) ----
 pub uninterp spec fn spec_is_assign(t: Seq<char>) -> bool;
@@ -162,6 +174,11 @@ pub fn vx_collect(v: &Vec<char>, a: usize, b: usize) -> (r: String)
 
 S = 'src/shell.rs'
 COMMON_RW = [
+    Rw(r"(\w+)\.stdout\.trim_end_matches\('\\n'\)", r'vx_strip_nl(&\1.stdout)', regex=True, required=False, rule='R12',
+       why="str::trim_end_matches('\\n') through a shim with that contract: the longest prefix that does not end in a newline"),
+    Rw(r'eprint!\("\{\}", (\w+)\.stderr\);', r'vx_eprint(&\1.stderr);', regex=True, required=False, rule='R3', why='the inner command\'s stderr text written to the shell\'s stderr'),
+    Rw('eprintln!();', 'vx_eprint_nl();', required=False, rule='R3'),
+    Rw("output_txt.contains('{')", "vx_contains_char(&output_txt, '{')", required=False, rule='R12'),
     Rw('types::Tokens', 'Tokens', required=False, rule='R0'),
     Rw(r'let mut buff: HashMap<usize, String> = HashMap::new\(\);', 'let mut buff: HashMap<usize, String> = vx_um_new();', regex=True, rule='R12',
        why='HashMap<usize,String> rewrite buffer through shims over an integer-keyed view'),
@@ -262,12 +279,12 @@ dollar = Fn(S, 'do_command_substitution_for_dollar', props=('C11',),
     ghost_args={'from_line': 'Tracked(lg)', 'run_pipeline': 'Tracked(lg)'},
     hints={'fn-entry': 'note_pass(lg, 1);',
            # ghost record, taken from the data flow (not from the code's own flag): this word received an operator character from an output
-           'after-call:vx_trim': 'if has_op(spec_trim(cmd_result.stdout@)) && sep@.len() == 0 && !assign_prefix(tokens@, idx as int) { note_op_word(lg, idx as int); }',
+           'after-call:vx_strip_nl': 'if (has_op(strip_nl(cmd_result.stdout@)) || strip_nl(cmd_result.stdout@).contains(\'{\')) && sep@.len() == 0 && !assign_prefix(tokens@, idx as int) { note_op_word(lg, idx as int); }',
            'before-text:line.push_str(&head);': 'RAW: let ghost __line0 = line@;',
            # THE STEP: the text in front of the substitution and the output are appended literally; only the tail is scanned again
            'after-text:rest = tail;':
            'LABEL:C11.dollar.step_appends_head_and_output_literally_and_continues_with_the_tail_only: '
-           'assert(line@ == __line0 + head@ + spec_trim(cmd_result.stdout@) && rest@ == tail@);',
+           'assert(line@ == __line0 + head@ + strip_nl(cmd_result.stdout@) && rest@ == tail@);',
            'before-text:data_words.push(idx);': 'lemma_in_words_push(data_words@, idx);',
            'loop-3-body-entry': 'lemma_quote_lit();',
            'loop-3-exit': EXIT_HINT},
